@@ -35,7 +35,7 @@ import mapgen
 import terms
 
 PID = "C05"
-PROPS = ["PfModel.Props.C05", "PfModel.Props.C05Par", "PfModel.Props.C05Hist", "PfModel.Props.C05ParFail", "PfModel.Props.C05Key"]
+PROPS = ["PfModel.Props.C05", "PfModel.Props.C05Par", "PfModel.Props.C05Hist", "PfModel.Props.C05ParFail", "PfModel.Props.C05Key", "PfModel.Props.C05User"]
 DRIVER = "C05"
 RULE = ("corpus (element-wise map + reduction on file_array and dict; an un-mapped tuple-output function with a custom output_picker) then "
         "well-formed map pipelines of 1-3 functions from mapgen (element-wise/zip, outer product, partial and full reduction, internal axes via "
